@@ -156,6 +156,69 @@ Definition kf_C08_swap_zero_size (c : c08_case) : bool :=
   | CSwap c => negb (holds_swap c) && typed (sw_ta c) (sw_tb c) && negb (nozero (sw_ta c) && nozero (sw_tb c))
   | _ => false
   end.
-(* the statement with the two open classes carved out *)
+(* ---------------------------------------------------------------- mappings whose keys are not all strings (YAML, Python objects)
+   LeafNode.__lt__ on two keys: Python's < on the wrapped objects; on TypeError (str against a number) the str() of
+   both.  int, float and bool compare by value, strings by code point. *)
+Definition leaf_ltb (x y : leaf) : bool :=
+  if is_numeric (lk x) && is_numeric (lk y)
+  then lnum x * 2 ^ lexp y <? lnum y * 2 ^ lexp x
+  else str_ltb (ltext x) (ltext y).
+
+(* sorted() in DictNode.from_dict is canonical only if < is a strict total order on the keys present: it is not when
+   three keys form a cycle (2 < 10, 10 < "15", "15" < 2) or two different keys are incomparable (9 and "9") *)
+Definition keys_not_totally_ordered (ks : list leaf) : bool :=
+  existsb (fun x => existsb (fun y => existsb (fun z => leaf_ltb x y && leaf_ltb y z && negb (leaf_ltb x z)) ks) ks) ks ||
+  existsb (fun x => existsb (fun y => negb (leaf_exact_eqb x y) && negb (leaf_ltb x y) && negb (leaf_ltb y x)) ks) ks.
+
+Fixpoint has_unordered_keys (d : doc) : bool :=
+  match d with
+  | DLeaf _ => false
+  | DArr l => (fix go (l : list doc) : bool := match l with [] => false | x :: r => has_unordered_keys x || go r end) l
+  | DObj kvs =>
+      keys_not_totally_ordered (map fst kvs) ||
+      (fix go (l : list (leaf * doc)) : bool := match l with [] => false | (_, v) :: r => has_unordered_keys v || go r end) kvs
+  end.
+
+(* keys of one mapping are pairwise different as Python dict keys (==), at every depth *)
+Fixpoint py_keys_distinct (ks : list leaf) : bool :=
+  match ks with [] => true | k :: r => negb (existsb (py_eqb k) r) && py_keys_distinct r end.
+Fixpoint any_keys_ok (d : doc) : bool :=
+  match d with
+  | DLeaf _ => true
+  | DArr l => (fix go (l : list doc) : bool := match l with [] => true | x :: r => any_keys_ok x && go r end) l
+  | DObj kvs =>
+      py_keys_distinct (map fst kvs) &&
+      (fix go (l : list (leaf * doc)) : bool := match l with [] => true | (_, v) :: r => any_keys_ok v && go r end) kvs
+  end.
+
+(* the inputs of the mixed-key stream are what its generator claims (the theorems do not cover them: they assume string keys) *)
+Definition in_domain_any_keys (c : c08_case) : bool :=
+  match c with
+  | CPerm c =>
+      any_keys_ok (pc_a c) && leaves_ok (pc_a c) && any_keys_ok (pc_b c) && leaves_ok (pc_b c) &&
+      forallb (fun v => doc_perm_eqb (pc_a c) (v_a v) && doc_perm_eqb (pc_b c) (v_b v)) (pc_vars c)
+  | CSwap _ => false
+  end.
+
+(* holds_perm without its pairing clause: equal costs, copy == and cost 0 *)
+Definition holds_perm_costs (c : perm_case) : bool :=
+  match pc_vars c with
+  | [] => true
+  | v0 :: _ =>
+      forallb (fun v =>
+        (cost (v_edit v) =? cost (v_edit v0)) &&
+        v_eq_a v && (v_cost_a v =? 0) && data_eqb (v_ta v0) (v_ta v) &&
+        v_eq_b v && (v_cost_b v =? 0) && data_eqb (v_tb v0) (v_tb v)) (pc_vars c)
+  end.
+
+(* D40: some mapping has keys that < does not order totally (mixed types), the canonical sort then depends on the file
+   order, and among equal-cost matchings a different one is chosen: ONLY the pairing clause fails, all costs agree *)
+Definition kf_C08_mixed_key_pairing (c : c08_case) : bool :=
+  match c with
+  | CPerm c => negb (holds_perm c) && holds_perm_costs c && (has_unordered_keys (pc_a c) || has_unordered_keys (pc_b c))
+  | _ => false
+  end.
+
+(* the statement with the open classes carved out *)
 Definition holds_C08_partial (c : c08_case) : bool :=
-  holds_C08 c || kf_C08_swap_cross_type c || kf_C08_swap_zero_size c.
+  holds_C08 c || kf_C08_swap_cross_type c || kf_C08_swap_zero_size c || kf_C08_mixed_key_pairing c.
